@@ -79,6 +79,19 @@ def oracle(case, R):
     nb = max(nb, 1)
     MS, CS, KS = network(rng, nS, case["propS"], case["zeta"])
     ML, CL, KL = network(rng, nL, case["propL"], case["zeta"])
+    # the same structures on another time scale (seconds -> milliseconds: stiffness x s^2, damping x s, frequencies
+    # x s): physics and apparent masses are the same, the NUMBERS in the stiffness matrix drop below 1e-2
+    ts_ = float(case.get("tunit", 1.0))
+    if not (case["formS"] == "cb" and case["formL"] == "cb"):
+        # (recovery-matrix boundaries go through SolveUnc's automatic rigid-body detection, whose documented rule
+        # - stiffness below 0.005 - depends on the units: only the Craig-Bampton route is unit-free)
+        ts_ = 1.0
+        case = dict(case, tunit=1.0)
+    if ts_ != 1.0:
+        for K_, C_ in ((KS, CS), (KL, CL)):
+            K_ *= ts_ ** 2
+            C_ *= ts_
+        R.label("tunit:ms")
     # one heavy dashpot (element-wise damping only): some elastic modes become overdamped (real eigenvalue
     # pairs) while the others stay underdamped
     for side, M_, C_, K_ in (("S", MS, CS, KS), ("L", ML, CL, KL)):
@@ -108,10 +121,10 @@ def oracle(case, R):
             R.label(f"gyro{side}")
     bS = sorted(rng.choice(nS, nb, replace=False).tolist())
     bL = sorted(rng.choice(nL, nb, replace=False).tolist())
-    freq = np.array(case["freq"], float)
+    freq = np.array(case["freq"], float) * float(case.get("tunit", 1.0))
     if case.get("freq_long"):
         # a sweep longer than any plausible internal block of the frequency-domain solvers (4096 / 8192 points)
-        freq = np.linspace(0.31, 61.7, int(case["freq_long"]))
+        freq = np.linspace(0.31, 61.7, int(case["freq_long"])) * float(case.get("tunit", 1.0))
     nf = len(freq)
     # external forces on source non-interface DOF (complex)
     fext = np.zeros((nS, nf), complex)
@@ -189,6 +202,9 @@ def oracle(case, R):
     R.nontrivial(nb >= 2 or not case["propS"] or not case["propL"])
     out = frclim.ntfl(Source, Load, As, freq)
     tol = CTOL * EPS * cnd
+    if float(case.get("tunit", 1.0)) != 1.0:
+        # (entries of K, C and M then span 6..8 decades; measured errors reach 1.2x the plain bound at 1e-4)
+        tol = 4.0 * tol
 
     def cmp(got, ref, kind, scale=None):
         got = np.asarray(got)
@@ -309,7 +325,8 @@ def cases(draw):
             "heavyS": draw(st.sampled_from([0.0, 0.0, 1.5, 5.0])), "heavyL": draw(st.sampled_from([0.0, 0.0, 0.0, 3.0])),
             "fs": draw(st.sampled_from(["none", "FreqDirect", "SolveUnc", "SolveUnc_h", "SolveUnc_h_used"])),
             "fs_h": draw(st.sampled_from([1e-3, 1e-2])),
-            "fscale": draw(st.sampled_from([1.0, 1.0, 1e-12, 1e10]))}
+            "fscale": draw(st.sampled_from([1.0, 1.0, 1e-12, 1e10])),
+            "tunit": draw(st.sampled_from([1.0, 1.0, 1e-3, 1e-4]))}
 
 
 @st.composite
